@@ -276,5 +276,24 @@ func ZZVerifC04WrongKind() {
 			}
 		}
 	}
+	// whatever the outcome, the source is untouched and free again (a stream
+	// left open keeps its file locked): the caller clears the obstacle and
+	// repeats the copy, which now succeeds and is complete
+	if err != nil {
+		nd.Assert(dest.RemoveAll(path) == nil, "C04/wrongkind/obstacle-removable")
+		if nd.Bool("source-rewritten-before-retry") {
+			nd.Assert(src.WriteFile("f", []byte("x"), filesystem.DefaultUnixFileMode) == nil, "C04/wrongkind/source-usable-after-refused-copy")
+		}
+		err = (fshelper.Copier{SrcFS: src, SrcPath: path, DestFS: dest, DestPath: path}).Do()
+		nd.Assert(err == nil, "C04/wrongkind/retry-succeeds")
+		if what == 0 {
+			got, rerr := dest.ReadFile("f")
+			nd.Assert(rerr == nil && bytes.Equal(got, []byte("x")), "C04/wrongkind/retry-complete")
+		} else {
+			nd.Assert(dest.IsDir(path), "C04/wrongkind/retry-complete")
+		}
+	}
+	got, rerr := src.ReadFile("d/g")
+	nd.Assert(rerr == nil && bytes.Equal(got, []byte("y")), "C04/wrongkind/source-unchanged")
 	nd.Reach("C04/wrongkind/end")
 }
